@@ -131,7 +131,7 @@ theorem secure_roundtrip (E : Env) (hC : E.cipher.Lawful) (hU : E.utf8.Lawful) (
           have hra : resolveMethod E.aesAvailable "aes" = some .aes := by
             unfold resolveMethod at hr ⊢
             cases ha : E.aesAvailable <;> simp_all
-          simp [toPython, Kvs.lookup, Method.name, B64.decode_encode, decrypt, hra,
+          simp [toPython, Kvs.lookup, Method.name, B64.decodeStrict_encode, decrypt, hra,
             cbc_roundtrip E.cipher hC key iv _ hiv, hU (c :: cs)]
         | xor =>
           simp only [hr, Option.some.injEq, Prod.mk.injEq] at he
@@ -139,7 +139,7 @@ theorem secure_roundtrip (E : Env) (hC : E.cipher.Lawful) (hU : E.utf8.Lawful) (
           subst hm; subst hct
           have hrx : resolveMethod E.aesAvailable "xor" = some .xor := by
             unfold resolveMethod; simp
-          simp [toPython, Kvs.lookup, Method.name, B64.decode_encode, decrypt, hrx, xorKey_involutive, hU (c :: cs)]
+          simp [toPython, Kvs.lookup, Method.name, B64.decodeStrict_encode, decrypt, hrx, xorKey_involutive, hU (c :: cs)]
 
 /-- **What is stored for a secret**: never the plaintext node — exactly a two-key map holding a concrete method name and
     base64 text; an empty or unset secret is stored as null. -/
@@ -160,12 +160,13 @@ theorem secure_stored_shape (E : Env) (key iv : Bytes) (method : String) (v : Op
       | some mc => exact ⟨mc.1, mc.2, by simpa [he] using h.symm, by simp [he]⟩
 
 /-- **Stored secrets of the wrong shape or encoding are rejected** (complete decision table): the only stored values
-    that produce a value are null, a bare string, or a map with a known string method and base64 text that decrypts. -/
+    that produce a value are null, a bare string, or a map with a known string method and strict base64 text
+    (`b64decode(validate=True)`: alphabet characters and final padding only) that decrypts. -/
 theorem stored_malformed_rejected (E : Env) (key : Bytes) (stored : Tree) (r : Option Str)
     (h : toPython E key stored = some r) :
     stored = .null ∨ (∃ s, stored = .str s) ∨
     ∃ d m c ct p, stored = .dict d ∧ Kvs.lookup "method" d = some (.str m) ∧ m ≠ [] ∧
-      Kvs.lookup "ciphertext" d = some (.str c) ∧ B64.decode c = some ct ∧
+      Kvs.lookup "ciphertext" d = some (.str c) ∧ B64.decodeStrict c = some ct ∧
       decrypt E key (String.ofList m) ct = some p ∧ E.utf8.dec p = r := by
   cases stored with
   | null => exact Or.inl rfl
@@ -188,7 +189,7 @@ theorem stored_malformed_rejected (E : Env) (key : Bytes) (stored : Tree) (r : O
             cases cv with
             | str c =>
               simp only [hc] at h
-              cases hb : B64.decode c with
+              cases hb : B64.decodeStrict c with
               | none => simp [hb] at h
               | some ct =>
                 simp only [hb] at h
@@ -202,6 +203,46 @@ theorem stored_malformed_rejected (E : Env) (key : Bytes) (stored : Tree) (r : O
             | _ => simp [hc] at h
       | _ => simp [hm] at h
   | _ => simp [toPython] at h
+
+/-- **Foreign characters in the stored text are rejected**: a stored map whose ciphertext text contains a character outside
+    `A–Z a–z 0–9 + / =` never produces a value — whatever the method, the key and the rest of the text (the non-strict
+    decoder would skip such characters, so `"!!!!"` would read as the empty ciphertext and `good + "!!??"` as `good`). -/
+theorem stored_foreign_characters_rejected (E : Env) (key : Bytes) (d : Kvs) (c : Str)
+    (hc : Kvs.lookup "ciphertext" d = some (.str c))
+    (hf : ∃ x ∈ c, B64.inAlphabet x = false ∧ x ≠ '=') :
+    toPython E key (.dict d) = none := by
+  have hb : B64.decodeStrict c = none := B64.decodeStrict_rejects_foreign c hf
+  simp only [toPython]
+  cases hm : Kvs.lookup "method" d with
+  | none => rfl
+  | some mv =>
+    cases mv with
+    | str m =>
+      simp only [hc, hb]
+      split <;> rfl
+    | _ => rfl
+
+/-- `"!!!!"` (non-strictly: the empty ciphertext) and a valid text with `"!!??"` appended (non-strictly: the same
+    ciphertext) are rejected under every key, for both methods; the valid text itself is not, and the non-strict decoder
+    (still used by the bytes and digest fields) reads all three. -/
+example (E : Env) (key : Bytes) :
+    toPython E key (.dict [("method", .str "xor".toList), ("ciphertext", .str "!!!!".toList)]) = none ∧
+    toPython E key (.dict [("method", .str "aes".toList), ("ciphertext", .str "!!!!".toList)]) = none ∧
+    toPython E key (.dict [("method", .str "xor".toList), ("ciphertext", .str "QUJD!!??".toList)]) = none ∧
+    toPython E key (.dict [("method", .str "aes".toList), ("ciphertext", .str "QUJD!!??".toList)]) = none :=
+  ⟨stored_foreign_characters_rejected E key _ _ rfl ⟨'!', by decide, by decide, by decide⟩,
+   stored_foreign_characters_rejected E key _ _ rfl ⟨'!', by decide, by decide, by decide⟩,
+   stored_foreign_characters_rejected E key _ _ rfl ⟨'?', by decide, by decide, by decide⟩,
+   stored_foreign_characters_rejected E key _ _ rfl ⟨'?', by decide, by decide, by decide⟩⟩
+example : B64.decode "!!!!".toList = some [] ∧ B64.decode "QUJD!!??".toList = some [65, 66, 67] ∧
+    B64.decodeStrict "QUJD".toList = some [65, 66, 67] ∧
+    B64.decodeStrict "!!!!".toList = none ∧ B64.decodeStrict "QUJD!!??".toList = none := by decide
+/-- with the XOR method and the empty key (XOR with nothing is the identity) the valid text loads, the two others do not -/
+example (E : Env) (hU : E.utf8.dec [65, 66, 67] = some ['A', 'B', 'C']) :
+    toPython E [] (.dict [("method", .str ['x', 'o', 'r']), ("ciphertext", .str ['Q', 'U', 'J', 'D'])]) =
+      some (some ['A', 'B', 'C']) := by
+  have hd : B64.decodeStrict ['Q', 'U', 'J', 'D'] = some [65, 66, 67] := by decide
+  simp [toPython, Kvs.lookup, hd, decrypt, resolveMethod, xorKey, hU]
 
 /-- Non-vacuity: the identity "cipher" is lawful, so the hypotheses of `cbc_roundtrip` are satisfiable,
     and a 17-byte plaintext takes two blocks. -/
